@@ -186,16 +186,18 @@ def _source(case_src):
         return os.path.join(SRC, "tests", "files", "bobby.KlattGrid"), None
     _, nform, npts, vi, trail, fin = case_src[:6]
     xmin = case_src[6] if len(case_src) > 6 else 0  # a time domain that does not start at 0 (an extracted part with its times preserved)
+    shift = case_src[7] if len(case_src) > 7 else 0  # the whole time domain moved far from zero (all sums stay exactly representable)
     pts = {}
     vals = VALS[vi:] + VALS[:vi]
     k = 0
-    xmax = 2.5
+    xmax = 2.5 + shift
+    xmin = xmin + shift
 
     def mk():
         nonlocal k
         P = []
         for i in range(npts):
-            P.append(((i + 1) * 0.5 + (0.0625 if i % 2 else 0.0), vals[k % len(vals)]))
+            P.append(((i + 1) * 0.5 + (0.0625 if i % 2 else 0.0) + shift, vals[k % len(vals)]))
             k += 1
         return P
     for nm in ("pitch", "voicingAmplitude", "gain", "bypass", "fricationAmplitude"):
@@ -424,12 +426,17 @@ def parts(tier):
                         for fin in (True, False):
                             yield (("syn", nform, npts, vi, trail, fin), ())
         # time domains that do not start at 0
-        for xmin in (0.0125, 0.35, -0.5, -2, 0.30000000000000004):
+        for xmin in (0.0125, 0.35, -0.5, -2, 0.30000000000000004, 0.4999999999, 0.49999999999999994):
             for nform in (1, 2):
                 for npts in (0, 2):
                     yield (("syn", nform, npts, 0, " ", True, xmin), ())
             yield (("syn", 2, 2, 3, "", True, xmin), ((("oral_formants", "formants"), FUNCS[0]),))
             yield (("syn", 2, 2, 3, "", True, xmin), ((("pitch",), FUNCS[1]), (("oral_formants", "bandwidths", "bandwidths [1]"), FUNCS[3])))
+        # the whole time domain far from zero (2**30 s) with a fractional start: nothing may be taken for a whole number
+        for xmin in (0.25, 2.0 ** -10, 0):
+            for npts in (0, 2):
+                yield (("syn", 2, npts, 0, " ", True, xmin, 2.0 ** 30), ())
+            yield (("syn", 2, 2, 3, "", True, xmin, 2.0 ** 30), ((("oral_formants", "formants"), FUNCS[0]),))
         # every addressed tier x every function on a synthetic grid
         src = ("syn", 2, 2, 0, " ", True)
         addrs = [("pitch",), ("voicingAmplitude",), ("gain",), ("flutter",), ("oral_formants", "formants"), ("oral_formants", "bandwidths"),
